@@ -44,7 +44,7 @@ let check ~(failc : string -> string -> string -> unit) ~(oname : string)
   else if nl > max_lines then count "renode_skipped_size"
   else if spanning_tree_tie (component_pts a @ component_pts b) then count "renode_skipped_ghost_tie"
   else begin
-    let sk = overlay_skeleton_of a b in
+    let sk = Pipeline_check.skeleton a b in   (* shared with pipeline_check.ml: same operands, same overlay *)
     let r = sk.sk_renoded in
     (* ---- the exact control points of the model *)
     let all_pts = List.concat (rn_all r) @ g_points a @ g_points b in
